@@ -106,6 +106,18 @@ def splitEnv (toks : List String) : List String × List (String × Bool) × List
     | _ => none
   (args, table, rxs, match js with | j :: _ => parseJsonOut j | [] => .other)
 
+/-- split a token list at every token equal to `sep` -/
+def splitAtTok (sep : String) (xs : List String) : List (List String) :=
+  xs.foldr (fun t acc => if t = sep then [] :: acc else match acc with
+    | g :: gs => (t :: g) :: gs
+    | [] => [[t]]) [[]]
+
+def parseTable (rxs : List String) : List (String × Bool) :=
+  rxs.filterMap fun t =>
+    match t.splitOn "=" with
+    | [p, b] => some (p, boolOf b)
+    | _ => none
+
 def mkEnv (table : List (String × Bool)) (compiles : Bool) (js : JsonOut) : Env :=
   { lower := lowerStd
     rx := fun p _ => (fun k => ((table.find? (fun e => e.1 = k)).map (·.2)).getD false) (rxKey p)
@@ -183,6 +195,28 @@ def step (st : DSt) (toks : List String) : DSt × String :=
       | none => s!"{showBool r.allowed} {r.level} m={showSigs r.matched}"
     ({ st with mem := m' },
      s!"{head} audit={m'.audit.length} last={showBool (m'.audit.getLast? == some r)} {memStats m'} rx={showRx calls} hk={hk} ## {tag}{tag2}{tag3}{tag4}")
+  | "par" :: _ :: cs =>
+    -- threads filtering concurrently: recorded critical-section order `o=…`, then one regex table per thread
+    let groups := splitAtTok ";" ((toks.dropWhile (· ≠ "@")).drop 1)
+    let contents := cs.map decodeStr
+    let n := contents.length
+    if st.mem.onThreat.isSome || n < 2 || contents.eraseDups.length != n then (st, "bad-op") else
+    let recorded := match groups.head? with
+      | some (o :: _) => if o.startsWith "o=" then ((o.drop 2).toString.splitOn ".").filterMap String.toNat? else []
+      | _ => []
+    let order := ((recorded ++ List.range n).filter (· < n)).eraseDups
+    let envOf := fun i => mkEnv (parseTable (groups.getD (i + 1) [])) true js
+    let (m', outs) := st.mem.filterSeq envOf st.now (order.map fun i => (i, contents.getD i []))
+    let calls := rxCalls st.mem.active
+    let part := fun i => match outs.find? (·.1 = i) with
+      | some (_, o) =>
+        let r := o.decision
+        s!"{showBool r.allowed} {r.level} m={showSigs r.matched} in={showBool (m'.audit.contains r)} rx={showRx (if r.reason = .scan then calls else [])}"
+      | none => "missing"
+    let anyRate := outs.any fun o => o.2.decision.reason = .rate
+    let tag := (if order = List.range n then "p:seq" else "p:reorder") ++ (if anyRate then " p:rate" else "")
+    ({ st with mem := m' },
+     s!"par o={".".intercalate (order.map toString)} | {" | ".intercalate ((List.range n).map part)} | audit={m'.audit.length} {memStats m'} ## {tag}")
   | ["learn", s] =>
     let sg := parseSig s
     let compiles := match toks.dropWhile (· ≠ "@") with | _ :: "bad" :: _ => false | _ => true
